@@ -19,6 +19,11 @@ type RefMon struct {
 	Allocs int64
 	Adds   int64
 	Decs   int64
+	// Recycle makes the monitor behave like a recycling allocator (tools/slab): an item whose count
+	// reaches zero is wiped, as if its memory were handed to the next item.  Whoever still uses it
+	// sees garbage.  The fields are replaced, not overwritten, so slices held elsewhere stay intact.
+	Recycle  bool
+	Recycled int64
 }
 
 func NewRefMon() *RefMon {
@@ -61,6 +66,14 @@ func (r *RefMon) DecRef(i *gkvlite.Item) {
 	}
 	if r.cnt[i] < 0 && r.viol == "" {
 		r.viol = fmt.Sprintf("C15/count-below-zero: ItemDecRef took the count of item %s to %d", kvString(i.Key), r.cnt[i])
+	}
+	if r.cnt[i] == 0 && r.Recycle {
+		k := make([]byte, len(i.Key))
+		for j := range k {
+			k[j] = 0xdd
+		}
+		i.Key, i.Val, i.Priority = k, []byte("\xdd recycled \xdd"), 0x5ddddddd
+		r.Recycled++
 	}
 }
 
@@ -158,4 +171,11 @@ func (r *RefMon) LeakedPtrs() []string {
 		}
 	}
 	return res
+}
+
+// RecycledCount returns the number of items wiped by the recycling allocator.
+func (r *RefMon) RecycledCount() int64 {
+	r.mu.Lock()
+	defer r.mu.Unlock()
+	return r.Recycled
 }
